@@ -219,8 +219,11 @@ func (r *c11Runner) fire() {
 			st.releaseWrite(r.callID[c], net.Call, n, k.mk("write"))
 			r.held[c] = false
 			r.lab("LCallSendFail %d", c)
+			full := r.hang
 			if r.waitCall(c, r.hang) {
 				r.lab("LCallRemove %d", c)
+			} else {
+				r.failf("call %d: its Write failed (%s) and it did not return within %v (the reads had not failed yet)", c, r.f.ek, full)
 			}
 		}
 		st.killKind(k, r.f.once)
